@@ -99,6 +99,10 @@ def gen_scn(r, k, forced=None):
                 for v, b in zip(vars_, cur):
                     lo = b["lower"] + r.randint(-3, 3) * v["w"] / 2
                     nx = b["nx"] if v["gper"] else max(3, b["nx"] + r.randint(-2, 3))
+                    if v["hlo"]:          # a boundary declared hard stays where it is
+                        lo = b["lower"]
+                    if v["hup"]:
+                        lo = b["upper"] - nx * v["w"]
                     b.update(lower=lo, upper=lo + nx * v["w"], nx=nx)
                     g.append((nx, lo, lo + nx * v["w"]))
                 events.append(("rebin", g))
@@ -437,11 +441,29 @@ def force_close(a, b):
     return a is not None and b is not None and len(a) == len(b) and all(vec_close(p, q) for p, q in zip(a, b))
 
 
+def tangential(c, F, x):
+    """forces with the radial component removed for unit-vector variables: between (nearly) coincident unit vectors the
+    implemented gradient -2 theta/sin(theta) c is ill-conditioned along the vector itself (0/0 at theta = 0, where the
+    code returns 0), and that component does not act on a unit vector"""
+    out = []
+    for v, f, xv in zip(c["vars"], F, x):
+        if v["kind"] == 2 and len(f) == 3 and len(xv) == 3:
+            d = sum(a * b for a, b in zip(f, xv))
+            out.append([a - d * b for a, b in zip(f, xv)])
+        else:
+            out.append(list(f))
+    return out
+
+
 def compare_step(c, im, mo):
     """first differing component between implementation and model at one step, or None"""
     if not close(im["E"], mo["E"]):
         return "energy"
-    if not force_close(im["F"], mo["F"]):
+    if has_restart(c):
+        # hill centres read back from a text state differ in the last digits: compare what acts on a unit vector
+        if not force_close(tangential(c, im["F"], im["cv"]), tangential(c, mo["F"], im["cv"])):
+            return "force"
+    elif not force_close(im["F"], mo["F"]):
         return "force"
     ex = not has_restart(c)
     if (im["nhills"], im["nnew"]) != (mo["nhills"], mo["nnew"]) or not hills_close(im["hills"], mo["hills"], ex):
@@ -672,7 +694,7 @@ def oracle(c, impl, traj):
         eE, eF, ins = spec_bias(c, geom, x, tab, pend)
         if not ins and c["use_grids"]:
             facts["outside_steps"] += 1
-        if not close(im["E"], eE) or not force_close(im["F"], eF):
+        if not close(im["E"], eE) or not force_close(tangential(c, im["F"], x), tangential(c, eF, x)):
             what = "energy %r force %s, sum of the deposited hills gives energy %r force %s" % (im["E"], im["F"], eE, eF)
             misaligned = c["use_grids"] and any(v["gper"] and not (g[1] <= xv[0] < g[2]) for v, g, xv in zip(c["vars"], geom, x))
             if misaligned:
